@@ -248,7 +248,15 @@ fn gen_goal(r: &mut Rng, w: &Weights, arities: &[usize], level: usize, depth: us
         },
         8 => match r.below(3) {
             0 => bip0("nl"),
-            1 => bip("print", vec![atom!(*r.pick(&["v=%s ", "%s-%s|", "hi ", "%s"])), gen_arg(r, w, true)]),
+            1 => {
+                // 0-3 arguments after the format; argument values may themselves contain the marker
+                let mut args = vec![atom!(*r.pick(&["v=%s ", "%s-%s|", "hi ", "%s", "%s%s", "<%s,%s,%s>"]))];
+                let n = if r.chance(1, 2) { 1 } else { r.below(4) };
+                for _ in 0..n {
+                    args.push(if r.chance(1, 5) { atom!(*r.pick(&["%s", "5%s", "a%sb%s"])) } else { gen_arg(r, w, true) });
+                }
+                bip("print", args)
+            },
             _ => bip("print_list", vec![gen_arg(r, w, true)]),
         },
         9 => {
@@ -428,6 +436,47 @@ pub fn emit_c11(out: &mut Out, cfg: &Cfg, c: &Case, r: &mut Rng) {
                 ok = false;
                 let k = (0..want.len().max(got.len())).find(|i| want.get(*i) != got.get(*i)).unwrap_or(0);
                 msg = format!("renaming variant {} changes result {}: `{}` became `{}`", vi + 1, k + 1, want.get(k).cloned().unwrap_or("<nothing>".into()), got.get(k).cloned().unwrap_or("<nothing>".into()));
+            }
+        }
+    }
+    // the same programs as source text: print every rule, read it back with the rule parser and run that.
+    // (The printed form of the generated rules is canonical except for blanks at the ends of atoms, so the
+    // parsed runs are compared with each other, not with the runs of the rules built through the API.)
+    let parse_all = |rules: &Vec<Rule>| -> Result<Vec<Rule>, String> {
+        let mut v = vec![];
+        for rule in rules {
+            let text = match catch_unwind(AssertUnwindSafe(|| rule.to_string())) { Ok(t) => t, Err(_) => return Err("printing a rule panicked".into()) };
+            match catch_unwind(AssertUnwindSafe(|| parse_rule(&text))) {
+                Ok(Ok(r2)) => v.push(r2),
+                Ok(Err(e)) => return Err(format!("`{}` is rejected: {}", text, e)),
+                Err(_) => return Err(format!("parse_rule panicked on `{}`", text)),
+            }
+        }
+        Ok(v)
+    };
+    if let Ok(base_rules) = parse_all(&c.rules) {
+        let cb = Case{rules: base_rules, query: c.query.clone(), max_calls: c.max_calls, extra: c.extra};
+        if let Some(binfo) = emit_info(out, cfg, &cb) {
+            let want_text = canon_answers(&binfo);
+            for (vi, f) in variants.iter().enumerate() {
+                let rules: Vec<Rule> = c.rules.iter().enumerate().map(|(ri, rule)| {
+                    let g = |n: &str| f(ri, n);
+                    Rule{head: map_names_term(&rule.head, &g), body: map_names_goal(&rule.body, &g)}
+                }).collect();
+                match parse_all(&rules) {
+                    Err(e) => { if ok { ok = false; msg = format!("renaming variant {} of the program text: {}", vi + 1, e); } },
+                    Ok(rules2) => {
+                        let c2 = Case{rules: rules2, query: c.query.clone(), max_calls: c.max_calls, extra: c.extra};
+                        if let Some(info) = emit_info(out, cfg, &c2) {
+                            let got = canon_answers(&info);
+                            if got != want_text && ok {
+                                ok = false;
+                                let k = (0..want_text.len().max(got.len())).find(|i| want_text.get(*i) != got.get(*i)).unwrap_or(0);
+                                msg = format!("renaming variant {} of the program TEXT changes result {}: `{}` became `{}`", vi + 1, k + 1, want_text.get(k).cloned().unwrap_or("<nothing>".into()), got.get(k).cloned().unwrap_or("<nothing>".into()));
+                            }
+                        }
+                    },
+                }
             }
         }
     }
